@@ -161,6 +161,7 @@ def parse_marked(text):
     per = {}
     outside = []
     cur = None
+    last = None          # a report printed between two runs belongs to the run that has just ended (left-over goroutine)
     rep = None
     for line in text.splitlines():
         m = re.match(r"C20RUN (begin|end) (.+)$", line)
@@ -171,11 +172,13 @@ def parse_marked(text):
             else:
                 if m.group(2) in per:
                     per[m.group(2)]["ended"] = True
+                last = m.group(2)
                 cur = None
             continue
         if line.startswith("WARNING: DATA RACE"):
             rep = [line]
-            (per[cur]["races"] if cur in per else outside).append(rep)
+            k = cur if cur in per else last
+            (per[k]["races"] if k in per else outside).append(rep)
             continue
         if rep is not None:
             if line.startswith("=================="):
@@ -324,10 +327,14 @@ def part_a(ctx, bins_future, pool, rnd):
     todo = []
     # safety + liveness for every pair; with the history variable (schedule export) for len(a) <= 4, numRoutines <= 4.
     # Small pairs: one run does both; large pairs: liveness without the history variable, export without liveness.
+    def in_range(n, w):
+        # thorough adds len(a) = 5 (numRoutines <= 3) and numRoutines = 5 (len(a) <= 3); larger pairs do not fit the budget
+        return not ((n == 5 and w >= 4) or (w == 5 and n >= 4))
+
     for n in range(0, maxn_mc + 1):
         for w in ws:
-            if n == 5 and w >= 5:
-                continue                      # 5 x 5 does not fit the thorough budget
+            if not in_range(n, w):
+                continue
             # quick: the 24 orders of (4, 4) cost 1.8 M states of the 2.6 M of the whole tier: simulated there
             exported = n <= 4 and w <= 4 and (thorough or (n, w) != (4, 4))
             if not (exported and small(n, w)):
@@ -345,7 +352,7 @@ def part_a(ctx, bins_future, pool, rnd):
     mc = [r for r in res if r["live"]]
     hist = [r for r in res if r["hist"]]
     pairs_live = {(r["n"], r["w"]) for r in mc}
-    want = {(n, w) for n in range(0, maxn_mc + 1) for w in ws if not (n == 5 and w >= 5)}
+    want = {(n, w) for n in range(0, maxn_mc + 1) for w in ws if in_range(n, w)}
     if want - pairs_live:
         raise Inconclusive("liveness was not checked for %s" % sorted(want - pairs_live))
 
@@ -545,6 +552,19 @@ def prepare_programs(ctx, rnd):
     return progs, ["pinned"] + gens + [n for n in light if n in progs], stds + [n for n in heavy if n in progs]
 
 
+def dead_record(k, name, mode, combo, info, timed_out, timeout):
+    """record of a run during which the process died (fatal error / panic) or hung twice"""
+    fatal = bool(re.search(r"fatal error: concurrent map|^panic: |fatal error:", info["tail"], re.M))
+    return {"key": k, "prog": name, "mode": mode, "rep": int(k.split("/")[3]), "sum": combo[0] == "1",
+            "cov": combo[1] == "1", "paths": combo[2] == "1", "ondemand": combo[3] == "1", "returned": False,
+            "err": "", "detached": False, "writers": 0, "ended": 0, "heldout": 0, "mainheld": 0,
+            "mainout": False, "expected": [], "atreturn": [], "after": [], "sumfiles": 0, "timesrows": 0,
+            "covfiles": 0, "flowfiles": 0, "flowsbad": 0, "pairs": 0, "gbase": 0, "gafter": 0, "ms": 0,
+            "races": len(info["races"]), "wraces": sum(1 for x in info["races"] if writer_race(x)),
+            "fatal": fatal, "race_text": "\n\n".join(info["races"]),
+            "crash_text": ("(no output for %ds, twice)\n" % timeout if timed_out else "") + info["tail"][-6000:]}
+
+
 def run_taintrace(ctx, exe, name, pdir, mode, combos, reps, seed, timeout):
     """one harness process per (program, schedule); restarts after a crash; returns records with races attached"""
     tag = "%s-%s" % (name, mode)
@@ -580,32 +600,29 @@ def run_taintrace(ctx, exe, name, pdir, mode, combos, reps, seed, timeout):
             r["fatal"] = False
             r["race_text"] = "\n\n".join(info["races"])
             recs.append(r)
-        pre = [k for k in per if "/expected/" in k and per[k]["races"]]
-        if outside or pre:
-            raise Inconclusive("race report outside every run window in %s (harness problem?):\n%s"
-                               % (tag, (outside + [per[k]["races"][0] for k in pre])[0][:3000]))
+        if outside:
+            raise Inconclusive("race report before the first run of %s (while loading the program?):\n%s"
+                               % (tag, outside[0][:3000]))
         if rc in (0, 66) and not timed_out:
             break
-        running = [k for k, v in per.items() if not v["ended"] and "/expected/" not in k]
+        running = [k for k, v in per.items() if not v["ended"]]
         if not running:
             raise Inconclusive("taintrace failed for %s (rc=%s):\n%s" % (tag, rc, err[-3000:]))
         k = running[-1]
         combo = k.split("/")[2]
+        if k.split("/")[1] == "pre":
+            # the pre-pass (real initialisation + summary pool, no report option) died or hung
+            if timed_out:
+                raise Inconclusive("taintrace pre-pass of %s produced nothing for %ds" % (tag, timeout))
+            info = per[k]
+            recs.append(dead_record(k, name, "pre", "0000", info, False, timeout))
+            break
         if timed_out:
             hung.append(k)
             if hung.count(k) < 2 and len([h for h in hung if h.split("/")[2] == combo]) < 2:
                 todo = [combo] + todo[todo.index(combo) + 1:]      # try the same combination once more
                 continue
-        info = per[k]
-        fatal = bool(re.search(r"fatal error: concurrent map|^panic: |fatal error:", info["tail"], re.M))
-        recs.append({"key": k, "prog": name, "mode": mode, "rep": int(k.split("/")[3]), "sum": combo[0] == "1",
-                     "cov": combo[1] == "1", "paths": combo[2] == "1", "ondemand": combo[3] == "1", "returned": False,
-                     "err": "", "detached": False, "writers": 0, "ended": 0, "heldout": 0, "mainheld": 0,
-                     "mainout": False, "expected": [], "atreturn": [], "after": [], "sumfiles": 0, "timesrows": 0,
-                     "covfiles": 0, "flowfiles": 0, "flowsbad": 0, "pairs": 0, "gbase": 0, "gafter": 0, "ms": 0,
-                     "races": len(info["races"]), "wraces": sum(1 for x in info["races"] if writer_race(x)),
-                     "fatal": fatal, "race_text": "\n\n".join(info["races"]),
-                     "crash_text": ("(no output for %ds, twice)\n" % timeout if timed_out else "") + info["tail"][-6000:]})
+        recs.append(dead_record(k, name, mode, combo, per[k], timed_out, timeout))
         todo = todo[todo.index(combo) + 1:]
     flaky = [k for k in set(hung) if not any(r["key"] == k and not r["returned"] for r in recs)]
     return recs, flaky
@@ -718,7 +735,7 @@ def part_c(ctx, bins_future, pool, rnd):
     det = sorted({r["detached"] for r in sums})
     ctx.extra.update({
         "analysis_runs": len(recs), "analysis_programs": sorted(progs),
-        "analysis_runs_by_schedule": {m: sum(1 for r in recs if r["mode"] == m) for m in ("free", "hold", "meet")},
+        "analysis_runs_by_schedule": {m: sum(1 for r in recs if r["mode"] == m) for m in ("pre", "free", "hold", "meet")},
         "writer_detached_observed": det, "known_finding_runs": known_hits,
         "analysis_failures_by_kind": {k: sum(1 for f in fails if f["kind"] == k) for k in sorted({f["kind"] for f in fails})},
         "race_reports_total": sum(r["races"] for r in recs),
